@@ -290,7 +290,7 @@ impl Prop for C03 {
         let world = World::builtin();
         let cs = cases(tier);
         for i in a..b {
-            out.idx = Some(i);
+            out.at(i);
             let c = &cs[i as usize];
             run_case(c, &world, "values", out);
             out.nontrivial.insert(hash64(&c.key));
